@@ -26,6 +26,8 @@ pub static SPECS: &[LangSpec] = &[
       "let x = [1, 2, 3].map(v => v * 2);\nif (x) { g(x) } else { h() }\n",
       "class A extends B {\n  m() { return this.n; }\n}\n",
       "foo(bar, /* c */ baz,);\nconsole.log('é', `t${x}`);\n",
+      // a NAMED LEAF whose text ends with a line break (string_fragment "a\n")
+      "let t = `a\n`;\n",
     ],
   },
   LangSpec {
@@ -63,6 +65,8 @@ pub static SPECS: &[LangSpec] = &[
       "if a:\n    b()\nelif c:\n    d()\nelse:\n    e('é')\n",
       // anonymous nodes WITH children: "not in" / "is not" are alias(seq(..)) in the grammar
       "x = a not in b\ny = a is not b\nif a not in (b, c): pass\n",
+      // a NAMED LEAF whose text ends with a line break (string_content "a\n")
+      "s = '''a\n'''\n",
     ],
   },
   LangSpec {
@@ -74,6 +78,8 @@ pub static SPECS: &[LangSpec] = &[
       "fn f(a: i32, b: i32) -> i32 {\n    // note\n    a + b\n}\n",
       "struct S { x: u8 }\nimpl S { fn m(&self) -> u8 { self.x } }\n",
       "let v: Vec<_> = it.map(|x| x + 1).collect();\n",
+      // a NAMED LEAF whose text ends with a line break (doc_comment " doc\n")
+      "struct S {\n    /// doc\n    x: i32,\n}\n",
     ],
   },
   LangSpec {
